@@ -78,6 +78,20 @@ fn basis_event(key: &str, k: usize, t: &Vec<f64>, xs: &[f64]) -> Value {
         Outcome::Ok(mx) => Value::Array((0..mx.shape()[0]).map(|j| fvec(&(0..mx.shape()[1]).map(|i| mx[[j, i]]).collect::<Vec<f64>>())).collect()),
         Outcome::Panic(_) => { o = "panic"; json!([]) }
     };
+    // the same matrix with DERIVATIVE rows at the two ends (first row of order left_n at the first site, last row of order
+    // right_n at the last site), for unequal pairs of orders
+    let mut matrix_lr = vec![];
+    if sites.len() >= 2 {
+        for (l, rr) in [(1usize, 0usize), (0, 1), (2, 1), (1, 2), (3, 0)] {
+            match guard(|| sp.bsplmatrix(&sites, l, rr)) {
+                Outcome::Ok(mx) => {
+                    let last = mx.shape()[0] - 1;
+                    matrix_lr.push(json!({"l": l, "r": rr, "first": fvec(&(0..mx.shape()[1]).map(|i| mx[[0, i]]).collect::<Vec<f64>>()), "last": fvec(&(0..mx.shape()[1]).map(|i| mx[[last, i]]).collect::<Vec<f64>>())}));
+                }
+                Outcome::Panic(_) => { o = "panic"; }
+            }
+        }
+    }
     // each basis function as the Python-facing spline class sees it: the spline whose only non-zero coefficient is c_i = 1,
     // through the three single-point derivative methods with a FLOAT abscissa
     let mut pyvals = vec![];
@@ -113,7 +127,7 @@ fn basis_event(key: &str, k: usize, t: &Vec<f64>, xs: &[f64]) -> Value {
         }
     }
     json!({"key": key, "op": "basis", "k": k, "t": fvec(t), "xs": fvec(xs), "vals": vals, "m0_via_deriv": via_d, "dvals": dvals, "vec_rev": vec_rev,
-           "sites": fvec(&sites), "matrix": matrix, "pyvals": pyvals, "pyfree": pyfree, "o": o})
+           "sites": fvec(&sites), "matrix": matrix, "matrix_lr": matrix_lr, "pyvals": pyvals, "pyfree": pyfree, "o": o})
 }
 
 /// TLC-generated knot vectors (MC_BSpline.CaseSeq): k, t (integers as doubles), nx quarter points
